@@ -204,7 +204,7 @@ theorem indexOf_lookup (s : Store) (k : Nat) : (indexOf s).lookup k = (s.get k).
   | nil => rfl
   | cons p rest ih =>
     obtain ⟨k', c⟩ := p
-    simp only [indexOf, List.map_cons, List.lookup_cons, Store.get]
+    simp only [indexOf, List.map_cons, List.lookup_cons, SafeNet.Validate.Store.get]
     by_cases h : k' = k
     · subst h; simp
     · have : (k == k') = false := by simp; omega
@@ -214,10 +214,10 @@ theorem indexOf_lookup (s : Store) (k : Nat) : (indexOf s).lookup k = (s.get k).
 /-- every held record is listed with its record type -/
 theorem indexOf_complete (s : Store) (k : Nat) (c : Content) (h : s.get k = some c) : (k, tyOf c) ∈ indexOf s := by
   induction s with
-  | nil => simp [Store.get] at h
+  | nil => simp [SafeNet.Validate.Store.get] at h
   | cons p rest ih =>
     obtain ⟨k', c'⟩ := p
-    simp only [Store.get] at h
+    simp only [SafeNet.Validate.Store.get] at h
     by_cases hk : k' = k
     · subst hk; simp at h; subst h; simp [indexOf]
     · simp only [hk, if_false] at h
@@ -232,27 +232,27 @@ theorem indexOf_sound (s : Store) (p : Nat × Nat) (h : p ∈ indexOf s) : ∃ c
 
 theorem get_put_same (s : Store) (k : Nat) (c : Content) : (s.put k c).get k = some c := by
   induction s with
-  | nil => simp [Store.put, Store.get]
+  | nil => simp [SafeNet.Validate.Store.put, SafeNet.Validate.Store.get]
   | cons p rest ih =>
     obtain ⟨k', c'⟩ := p
-    simp only [Store.put]
+    simp only [SafeNet.Validate.Store.put]
     by_cases h : k' = k
-    · simp [h, Store.get]
-    · simp [h, Store.get, ih]
+    · simp [h, SafeNet.Validate.Store.get]
+    · simp [h, SafeNet.Validate.Store.get, ih]
 
 theorem get_put_other (s : Store) (k k' : Nat) (c : Content) (h : k' ≠ k) : (s.put k c).get k' = s.get k' := by
   induction s with
-  | nil => simp [Store.put, Store.get]; omega
+  | nil => simp [SafeNet.Validate.Store.put, SafeNet.Validate.Store.get]; omega
   | cons p rest ih =>
     obtain ⟨k2, c2⟩ := p
-    simp only [Store.put]
+    simp only [SafeNet.Validate.Store.put]
     by_cases h2 : k2 = k
     · subst h2
       have : ¬ k2 = k' := by omega
-      simp [Store.get, this]
+      simp [SafeNet.Validate.Store.get, this]
     · by_cases h3 : k2 = k'
-      · subst h3; simp [h, Store.get]
-      · simp [h2, Store.get, h3, ih]
+      · subst h3; simp [h, SafeNet.Validate.Store.get]
+      · simp [h2, SafeNet.Validate.Store.get, h3, ih]
 
 /-! ## `store_replicated_in_record` evaluated -/
 
